@@ -57,9 +57,18 @@ class StrModel:
             return str_strip(recv)
         if name == "lower" and is_strterm(recv):
             return str_lower(recv)
+        if name in ("capitalize", "upper", "title", "rstrip", "lstrip") and is_strterm(recv):
+            f = z3.Function("str_" + name, StrSort, StrSort)
+            return f(recv)
         if name == "copy":
             return recv
         raise OutOfSubset(f"str.{name} on {recv!r}")
+
+    def join_sym(self, I, st, sep, lst, node):
+        from ..seqs import seq_view
+        from ..values import Tok
+        n, g = seq_view(st, lst)
+        return Rope((Tok("JOIN", sep=norm_str(sep), length=n, get=g),))
 
     def contains(self, I, st, container, x, node):
         container, x = norm_str(container), norm_str(x)
